@@ -13,6 +13,7 @@ fn registry() -> Vec<PartDesc> {
     v.push(desc::<props::c02::C02>("exploration"));
     v.push(desc::<props::c03::C03>("exploration"));
     v.push(desc::<props::c04::C04>("fault_enumeration"));
+    v.push(desc::<props::c06::C06>("exploration"));
     #[cfg(feature = "async-trait")]
     v.push(desc::<props::c01::C01At>("exploration"));
     #[cfg(not(feature = "async-trait"))]
@@ -74,6 +75,7 @@ fn main() {
             let cases: Option<u32> = arg_val(&args, "--cases").and_then(|s| s.parse().ok());
             let p = reg.iter().find(|p| p.prop == prop && p.part == part).expect("unknown part");
             let f = p.shard_fn.expect("part not built into this binary variant");
+            runner::start_watchdog(30);
             let r = f(tier, seed, shard, of, cases);
             println!("SHARD-RESULT {}", serde_json::to_string(&r).unwrap());
         }
